@@ -430,6 +430,7 @@ inductive AC where
   | or (cs : List AC)
   | equiv (cs : List AC)
   | provider
+  | otherK        -- a concrete constraint on *another* variable (a distinct object, never `NULL_CONSTRAINT`)
   deriving Repr, Inhabited
 
 mutual
@@ -441,6 +442,7 @@ def AC.invert : AC → AC
   | .or cs => .and (AC.invertL cs)
   | .equiv cs => .equiv (AC.invertL cs)
   | .provider => .null
+  | .otherK => .otherK
 def AC.invertL : List AC → List AC
   | [] => []
   | c :: cs => c.invert :: AC.invertL cs
@@ -464,6 +466,7 @@ def AC.apply : AC → List K
     | [] => []
     | g :: gs => if g.isEmpty || gs.any List.isEmpty then [] else [.oneOf ((g :: gs).map groupK)]
   | .provider => []
+  | .otherK => []
 def AC.applyL : List AC → List K
   | [] => []
   | c :: cs => c.apply ++ AC.applyL cs
@@ -482,15 +485,40 @@ def spliceOr : List AC → List AC
   | .or xs :: cs => xs ++ spliceOr cs
   | c :: cs => c :: spliceOr cs
 
-/-- `AndConstraint.make` (:566) without the `id()`-based absorption -/
+def AC.isNull : AC → Bool
+  | .null => true
+  | _ => false
+def hasNull (cs : List AC) : Bool := cs.any AC.isNull
+
+/-- the `processed` dict of every `make` is keyed by `id()`: the singleton `NULL_CONSTRAINT` occurs
+at most once in the result -/
+def dedupNull : List AC → List AC
+  | [] => []
+  | .null :: cs => .null :: cs.filter (fun c => !c.isNull)
+  | c :: cs => c :: dedupNull cs
+
+/-- "A AND (A OR B) reduces to A" (stacked_scopes.py:578) for the one shared object of the fragment, the
+singleton `NULL_CONSTRAINT`: an `or` conjunct with `NULL` among its alternatives is dropped when
+`NULL` is a conjunct (opaque operands). -/
+def absorbAnd (xs : List AC) : List AC :=
+  if hasNull xs then
+    dedupNull (xs.filter (fun c => match c with | .or ys => !hasNull ys | _ => true))
+  else xs
+/-- dually "A OR (A AND B) reduces to A" (:630) with `A = NULL` -/
+def absorbOr (xs : List AC) : List AC :=
+  if hasNull xs then
+    dedupNull (xs.filter (fun c => match c with | .and ys => !hasNull ys | _ => true))
+  else xs
+
+/-- `AndConstraint.make` (:566); of the `id()`-based rules only the instance above is modelled -/
 def AC.mkAnd (cs : List AC) : AC :=
-  match spliceAnd cs with
+  match absorbAnd (spliceAnd cs) with
   | [] => .null
   | [c] => c
   | xs => .and xs
-/-- `OrConstraint.make` (:618) without the `id()`-based absorption -/
+/-- `OrConstraint.make` (:618) -/
 def AC.mkOr (cs : List AC) : AC :=
-  match spliceOr cs with
+  match absorbOr (spliceOr cs) with
   | [] => .null
   | [c] => c
   | xs => .or xs
@@ -538,27 +566,92 @@ def Cond.k (T : BoolTable) : Cond → K
   | .assertInst c => .isInstance c true
   | .assertIs l => .isValue l true
 
-/-- Boolean combinations (`visit_BoolOp`, `visit_UnaryOp`). -/
+/-- Boolean combinations (`visit_BoolOp`, `visit_UnaryOp`) over three kinds of atoms: a condition on
+the narrowed variable (`leaf`), a condition on *another* variable (`other`: its constraint carries a
+different varname), and an **opaque** operand that yields no constraint at all (`opaque i`: a call, a
+comparison of two non-literals, `isinstance(x, cls_var)` …; its truth is the `i`-th bit of the
+environment and is independent of the narrowed variable). -/
 inductive BCond where
   | leaf (c : Cond)
+  | other (c : Cond)
+  | opaque (i : Nat)
   | not (b : BCond)
   | and (bs : List BCond)
   | or (bs : List BCond)
   deriving Repr, Inhabited
 
 mutual
-/-- The abstract constraint attached to the value of the condition expression:
-`not` inverts (name_check_visitor.py:3699), `and` is `AndConstraint.make(reversed(...))` (:3463),
-`or` is the `OrConstraint.make` of `extract_constraints` on the union of the operand values. -/
-def BCond.ac (T : BoolTable) : BCond → AC
+/-- **The ideal constraint algebra**: the constraint of the condition expression projected on the
+narrowed variable when every operator only combines the constraints of its operands — `not` inverts
+(name_check_visitor.py:3699), `and` is `AndConstraint.make(reversed(...))` (:3463), `or` is
+`OrConstraint.make` of the operands' constraints **including `NULL_CONSTRAINT` for an operand without
+constraint**. An opaque operand contributes `NullConstraint`, an atom on another variable a
+constraint that `apply` never yields for this variable. `NULL` is the unit of AND and **absorbing**
+for OR (`AC.apply` on `.or`: some group empty ⇒ nothing is applied). -/
+def BCond.acIdeal (T : BoolTable) : BCond → AC
   | .leaf c => .k (c.k T)
-  | .not b => (b.ac T).invert
-  | .and bs => AC.mkAnd (BCond.acL T bs).reverse
-  | .or bs => AC.mkOr (BCond.acL T bs)
-def BCond.acL (T : BoolTable) : List BCond → List AC
+  | .other _ => .otherK
+  | .opaque _ => .null
+  | .not b => (b.acIdeal T).invert
+  | .and bs => AC.mkAnd (BCond.acIdealL T bs).reverse
+  | .or bs => AC.mkOr (BCond.acIdealL T bs)
+def BCond.acIdealL (T : BoolTable) : List BCond → List AC
   | [] => []
-  | b :: bs => b.ac T :: BCond.acL T bs
+  | b :: bs => b.acIdeal T :: BCond.acIdealL T bs
 end
+
+/-- The value of a condition expression as far as `extract_constraints` (stacked_scopes.py:1600) can
+see it: a union of member values, each carrying the constraint of its own `ConstraintExtension`s
+(`null` = none), under an optional annotation of the whole value (`top`). -/
+structure CVal where
+  top : AC
+  members : List AC
+  deriving Inhabited
+
+def nonNull (cs : List AC) : List AC := cs.filter fun c => !c.isNull
+
+/-- `extract_constraints`: `AnnotatedValue` → `AndConstraint.make([its constraints, the base's])`,
+`MultiValuedValue` → `OrConstraint.make` of the members' constraints, anything else `NULL`.
+Normal form: when the annotation of the whole value is present, the `or` of the members is one of the
+conjuncts `AndConstraint.make` absorbs by identity (one of its alternatives *is* a conjunct) or an
+additional weaker conjunct; it is left out. When the annotation is `NULL` — the conjunction collapsed —
+the `or` of the members is all that is extracted. -/
+def CVal.ext (v : CVal) : AC :=
+  let base := match v.members with
+    | [m] => m
+    | ms => AC.mkOr ms
+  if v.top.isNull then base else v.top
+
+/-- the members as `unite_values` splices them into an enclosing union: the annotation of the whole
+value is handed down to every member (`annotate_value(subval, value.metadata)`, value.py:2894) -/
+def CVal.flat (v : CVal) : List AC :=
+  if v.top.isNull then v.members else v.members.map fun m => AC.mkAnd (nonNull [m, v.top])
+
+mutual
+/-- The value `visit_BoolOp` / `visit_UnaryOp` / the atoms produce. For `and` the value is the
+union of the operand values (the earlier ones constrained falsy, which keeps their annotations)
+annotated with the `AndConstraint`; for `or` the bare union (name_check_visitor.py:3458-3468). -/
+def BCond.cv (T : BoolTable) : BCond → CVal
+  | .leaf c => ⟨.null, [.k (c.k T)]⟩
+  | .other _ => ⟨.null, [.otherK]⟩
+  | .opaque _ => ⟨.null, [.null]⟩
+  | .not b => ⟨.null, [(b.cv T).ext.invert]⟩
+  | .and bs => ⟨AC.mkAnd (BCond.extL T bs).reverse, BCond.flatL T bs⟩
+  | .or bs => ⟨.null, BCond.flatL T bs⟩
+def BCond.extL (T : BoolTable) : List BCond → List AC
+  | [] => []
+  | b :: bs => (b.cv T).ext :: BCond.extL T bs
+def BCond.flatL (T : BoolTable) : List BCond → List AC
+  | [] => []
+  | b :: bs => (b.cv T).flat ++ BCond.flatL T bs
+end
+
+/-- **The constraint the checker extracts from the condition** (`constraint_from_condition`,
+name_check_visitor.py:4569: `extract_constraints` of the value of the expression). It differs from
+`acIdeal` exactly where the members of the value are read back: when a conjunction collapses to
+`NULL` (every conjunct is opaque or an `or` with an opaque alternative), the constraints of the
+operands' member values survive as a disjunction — exception class `nullAbsorbLeak`. -/
+def BCond.ac (T : BoolTable) (b : BCond) : AC := (b.cv T).ext
 
 /-- **The narrowed type** of a variable of type `v` in the branch of `if <c>` taken when the
 condition evaluates to `pol` (`visit_If`: the body gets the constraint, the else branch its
@@ -568,6 +661,10 @@ def narrow (tbl : ClassTable) (T : BoolTable) (v : Ty) (c : Cond) (pol : Bool) :
 
 def narrowB (tbl : ClassTable) (T : BoolTable) (v : Ty) (b : BCond) (pol : Bool) : Ty :=
   constrain tbl T v (if pol then b.ac T else (b.ac T).invert)
+
+/-- narrowing with the ideal constraint algebra -/
+def narrowBIdeal (tbl : ClassTable) (T : BoolTable) (v : Ty) (b : BCond) (pol : Bool) : Ty :=
+  constrain tbl T v (if pol then b.acIdeal T else (b.acIdeal T).invert)
 
 /-! ## `match` statements (patma.py, name_check_visitor.py:5666 `visit_Match`) -/
 
